@@ -840,6 +840,9 @@ func (r *Run) Spawned() int {
 	return len(r.all)
 }
 
+// AllStacks returns the stacks of all goroutines (debugging aid).
+func AllStacks() string { return allStacks() }
+
 func allStacks() string {
 	buf := make([]byte, 1<<20)
 	n := runtime.Stack(buf, true)
